@@ -43,7 +43,15 @@ pub const SEQ_BOUNDARY: [u64; 18] = [
     (1 << 40) - 1,
 ];
 
-pub const NEIGHBOUR_KEYS: [&[u8]; 16] = [
+pub const NEIGHBOUR_KEYS: [&[u8]; 24] = [
+    b"ID",
+    b"Id",
+    b"IP",
+    b"TCP",
+    b"Udp",
+    b"SECP256K1",
+    b"Secp256k1",
+    b"ED25519",
     b"i",
     b"ic",
     b"id\0",
@@ -1025,7 +1033,8 @@ pub fn finish(m: &Mutated, over: SignOver) -> Vec<u8> {
 // ---------------------------------------------------------------------------------------------
 // unsigned tampers (C01)
 
-pub const FIELD_TAMPERS: [&str; 21] = [
+pub const FIELD_TAMPERS: [&str; 22] = [
+    "sig-recid",
     "sig-der",
     "dup-pair-unsigned-before",
     "dup-pair-unsigned-after",
@@ -1212,6 +1221,15 @@ pub fn field_tamper(d: &Draft, which: &str, c: &mut Choices) -> Vec<u8> {
             if !found {
                 // pad instead: a 65-byte field with a leading zero
                 sig.insert(0, 0);
+            }
+        }
+        "sig-recid" => {
+            // r || s || v as produced by recoverable-signature APIs (v = 0, 1, 27, 28), or v || r || s
+            let v = *c.pick(&[0u8, 1, 27, 28]);
+            if c.chance(200) {
+                sig.push(v);
+            } else {
+                sig.insert(0, v);
             }
         }
         "sig-der" => {
